@@ -111,6 +111,8 @@ def enumerate_cases(tier: str, seed: int) -> list[dict[str, Any]]:
     for s in starts:
         cases.append({"key": f"range:start={s}", "src": "range", "start": s, "box": box, "cost": 1.0 if tier == "quick" else 6.0})
     cases.append({"key": "range:boundaries", "src": "range_boundary", "cost": 2.0})
+    for op in graphgen._RANGE_MIX_OPS:
+        cases.append({"key": f"range_mix:{op}", "src": "range_mix", "op": op, "cost": 2.0})
     return recs.only_filter(cases)
 
 
@@ -308,7 +310,76 @@ def _range_case(case: dict[str, Any], tier: str, seed: int) -> dict[str, Any]:
     return rec
 
 
+_MIX_Y = [
+    [5, 2**31, -(2**40) - 7, 127, 128], [-129, 32767, 32768, -32769, 65536], [0, 1, 2, 255, 256], [2**31 - 1, -(2**31), -(2**31) - 1, 2**32, 2**62],
+    [1, 1, 1, 1, 1], [0, 0, 0, 0, 0], [-1, -2, -3, -4, -5], [2**16 + 3, 2**8 + 1, 2**24 + 1, 2**53 + 1, -(2**53) - 1],
+]
+
+
+def _range_mix_case(case: dict[str, Any], tier: str, seed: int) -> dict[str, Any]:
+    """A proven-bounded Range mixed with an *unbounded* operand before the narrowing round trip:
+    the optimised graph is run against the unoptimised one on inputs outside the narrow type."""
+    from checks import c02
+
+    rec: dict[str, Any] = {"evals": 0, "nontrivial": [], "violations": [], "obs": {}}
+    op = case["op"]
+    rng = np.random.default_rng([seed, stable_hash(case["key"]) % 2**31])
+    extra = [[int(v) for v in rng.choice([-(2**k) - 1 for k in (7, 15, 31, 40)] + [2**k for k in (7, 8, 15, 16, 31, 32, 50)] + [0, 1, 3], 5)] for _ in range(4 if tier == "quick" else 24)]
+    for T in ("i64", "i32"):
+        for U in ("i8", "u8", "i16", "u16", "i32", "bool", "f32", "f16"):
+            if T == U:
+                continue
+            for pre_ops in ([], ["Unsqueeze"], ["Identity"]):
+                if pre_ops == ["Unsqueeze"] and op not in ("AddInput", "MulInput", "MaxInput"):
+                    continue
+                r = {"t": "range_cast", "opset": 21, "seed": 1, "T": T, "U": U, "start": 0, "limit": 5, "delta": 1, "shape_ops": pre_ops + [op], "n_emit": 5, "big": (2**40 + 7 if T == "i64" else 2**30 + 7)}
+                try:
+                    model = graphgen.build(r)
+                except Exception:  # noqa: BLE001
+                    rec["obs"]["graph_not_buildable"] = rec["obs"].get("graph_not_buildable", 0) + 1
+                    continue
+                npT = np.int64 if T == "i64" else np.int32
+                lim = np.iinfo(npT)
+                feeds = []
+                for ys in _MIX_Y + extra:
+                    f = {"x0": np.zeros((1,), npT)}
+                    if any(i.name == "y" for i in model.graph.input):
+                        f["y"] = np.clip(np.array(ys, dtype=object), lim.min, lim.max).astype(npT)
+                    f = {i.name: f.get(i.name, np.zeros((1,), npT)) for i in model.graph.input}
+                    feeds.append(f)
+                pre, why = c02._run(model.SerializeToString(), feeds)
+                if pre is None:
+                    rec["obs"]["pre_model_not_runnable"] = rec["obs"].get("pre_model_not_runnable", 0) + 1
+                    rec["obs"].setdefault("why", why[:120])
+                    continue
+                post_m = _optimise(model)
+                n_pre = sum(1 for n in model.graph.node if n.op_type == "Cast")
+                n_post = sum(1 for n in post_m.graph.node if n.op_type == "Cast")
+                post, why = c02._run(post_m.SerializeToString(), feeds)
+                rec["evals"] += 1
+                cls = f"{T}>{U}:{'+'.join(pre_ops + [op])}"
+                if n_post < n_pre:
+                    rec["obs"]["mixed_roundtrips_folded"] = rec["obs"].get("mixed_roundtrips_folded", 0) + 1
+                else:
+                    rec["obs"]["mixed_roundtrips_kept"] = rec["obs"].get("mixed_roundtrips_kept", 0) + 1
+                rec["nontrivial"].append(cls + ("|folded" if n_post < n_pre else "|kept"))
+                if post is None:
+                    if not why.startswith("env"):
+                        rec["violations"].append({"family": "range_proof/mixed", "kind": "pass_breaks_model", "cls": cls, "text": f"{cls}: valid before, after the optimizer: {why}"})
+                    continue
+                c = c02._same(pre, post, False)
+                if not c.ok:
+                    rec["violations"].append({"family": "range_proof/mixed", "kind": "fold_changes_" + (c.kind or "value"), "cls": cls, "text": f"Range(0,5,1)->{'+'.join(pre_ops + [op])}->Cast({U})->Cast({T}): optimised graph differs from the unoptimised one: {c.text}"})
+    rec["status"] = "violated" if rec["violations"] else ("held" if rec["evals"] else "inconclusive")
+    if not rec["evals"]:
+        rec["reason"] = "no_graph_ran"
+    rec["sample"] = {"op": op, "graphs_run": rec["evals"], "feeds_per_graph": len(_MIX_Y) + len(extra)}
+    return rec
+
+
 def run_case(case: dict[str, Any], tier: str, seed: int) -> dict[str, Any]:
+    if case["src"] == "range_mix":
+        return _range_mix_case(case, tier, seed)
     if case["src"] in ("decide", "decide32"):
         return _decide_case(case, tier, seed)
     if case["src"] == "graph":
